@@ -25,6 +25,9 @@ class ZoomingOracle(Oracle):
         p = ctx.cfg["params"]
         self.nu = float(p.get("nu", 1))
         self.rho = float(p.get("rho", 0.9))
+        self.pending = None
+        self.consumed_calls = 0
+        self.arms_before = {}
         if ctx.judging:
             self.coverage(ctx, "after construction")
 
@@ -46,15 +49,89 @@ class ZoomingOracle(Oracle):
                 raise Violation("C11.coverage", "leaf cell %r %r has no active arm: the region lost its arm %s"
                                 % (cell_id(leaf), leaf.get_domain(), where))
 
+    def _rebind(self, act, pt):
+        """An arm object may be re-created when it is handed down: same location, same number of pulls = same arm."""
+        ids = {id(a) for a in act}
+        for aid, (arm, rew) in list(self.led.items()):
+            if aid not in ids:
+                twin = [a for a in act if id(a) not in self.led and list(map(float, a.get_point())) == list(map(float, arm.get_point()))
+                        and pt[a] == len(rew)]
+                if twin:
+                    del self.led[aid]
+                    self.led[id(twin[0])] = [twin[0], rew]
+
+    def _judge_refinement(self, ctx, arm, cell, calls, t, where):
+        """`calls`: refinements of the arm's cell, possibly a chain (the cell, then the child that took the arm, ...).
+        Every refined cell must be the arm's cell at that moment and be due by the rule at its depth."""
+        st = ctx.extra["stats"]
+        act = _attr(ctx.algo, "active_points")
+        pt = _attr(ctx.algo, "pulled_times")
+        m, n = self.stats(arm)
+        cur = cell
+        for c in calls:
+            if c["parent"] is not cur:
+                raise Violation("C11.refine", "round %d refined cell %r, the pulled arm's cell is %r %s"
+                                % (t, cell_id(c["parent"]), cell_id(cur), where))
+            thr = self.nu * self.rho ** cur.get_depth()
+            rad = math.sqrt(8 * phase_of(t + 1) / (2 + n))
+            if not (rad <= thr or close(rad, thr)):
+                raise Violation("C11.rule", "round %d: radius sqrt(8*phase/(2+%d)) = %r vs nu*rho^%d = %r: refinement not due but done %s"
+                                % (t, n, rad, cur.get_depth(), thr, where), round=t)
+            st.bump("refinements")
+            children = c["children"]
+            holders = [ch for ch in children if in_box(arm.get_point(), ch.get_domain())]
+            if len(holders) > 1:
+                st.bump("refinements_arm_on_shared_face")
+            # which child took the arm: the arm's final cell or an ancestor of it among these children
+            fin = act.get(arm)
+            nxt = None
+            x = fin
+            while x is not None:
+                if any(x is ch for ch in children):
+                    nxt = x
+                    break
+                x = x.get_parent()
+            if nxt is None:
+                raise Violation("C11.handdown", "after refining %r the arm's cell is %r, not below one of the children (round %d)"
+                                % (cell_id(cur), cell_id(fin) if fin is not None else None, t))
+            for ch in children:
+                if ch is nxt:
+                    continue
+                if in_box(arm.get_point(), ch.get_domain()):
+                    continue  # contains the arm (shared face): it only has to be covered, which coverage() checks
+                fresh = [a for a, cc in act.items() if cc is ch and id(a) not in self.arms_before]
+                ok = [a for a in fresh if list(map(float, a.get_point())) == list(map(float, ch.get_cpoint())) and pt[a] == 0]
+                if not ok and ch.get_children() is None:
+                    raise Violation("C11.newarm", "after refining %r the child %r %r, which does not contain the arm, did not receive a new arm at its centre (round %d)"
+                                    % (cell_id(cur), cell_id(ch), ch.get_domain(), t), round=t)
+            cur = nxt
+
     def after_pull(self, ctx):
         self.t += 1
         t = self.t
         algo = ctx.algo
         arm = _attr(algo, "best_arm")
-        self.arm = arm
         act = _attr(algo, "active_points")
+        pt = _attr(algo, "pulled_times")
+        # a refinement that was due after the previous round may be carried out lazily at the beginning of this pull
+        if self.pending is not None:
+            parm, pcell, pt_round = self.pending
+            self.pending = None
+            calls = [c for c in ctx.round_calls() if c["partition"] is algo.partition]
+            self.consumed_calls = len(calls)
+            if ctx.judging:
+                if not calls:
+                    raise Violation("C11.rule", "round %d: the refinement of cell %r was due (radius <= nu*rho^depth) but was done neither in "
+                                    "receive_reward nor at the next pull" % (pt_round, cell_id(pcell)), round=pt_round)
+                self._rebind(act, pt)
+                self._judge_refinement_at(ctx, parm, pcell, calls, pt_round)
+                self.coverage(ctx, "(after the pull of round %d)" % t)
+        else:
+            self.consumed_calls = 0
+        self._rebind(act, pt)
+        self.arm = arm
         self.cell_before = act.get(arm)
-        self.arms_before = {id(a) for a in act}
+        self.arms_before = {id(a): a for a in act}  # keep the objects: ids of dead arms could be reused
         if not ctx.judging:
             return
         if arm not in act:
@@ -65,19 +142,23 @@ class ZoomingOracle(Oracle):
 
         def index(a):
             m, n = self.stats(a)
-            return m + 2 * math.sqrt(8 * ph / (2 + n))
+            return m + 2 * math.sqrt(8 * ph / (2 + n)), max((abs(v) for v in self.led.get(id(a), [a, []])[1]), default=0.0)
 
-        mine = index(arm)
-        best = max(index(a) for a in act)
-        if not (mine == best or close(mine, best)):
+        mine, sc = index(arm)
+        best = max(index(a)[0] for a in act)
+        if not (mine == best or close(mine, best, 1e-9, sc)):
             raise Violation("C11.index", "pulled arm at %r has index %r, another active arm has %r (phase %d, round %d)"
                             % (arm.get_point(), mine, best, ph, t), round=t)
         ctx.extra["stats"].bump("pulls_judged")
 
+    def _judge_refinement_at(self, ctx, arm, cell, calls, t):
+        self._judge_refinement(ctx, arm, cell, calls, t, "(carried out at the next pull)")
+
     def after_round(self, ctx):
         t = self.t
         arm = self.arm
-        self.led.setdefault(id(arm), [arm, []])[1].append(ctx.r)
+        rew_list = self.led.setdefault(id(arm), [arm, []])[1]
+        rew_list.append(ctx.r)
         if not ctx.judging:
             return
         st = ctx.extra["stats"]
@@ -85,51 +166,34 @@ class ZoomingOracle(Oracle):
         act = _attr(algo, "active_points")
         pt = _attr(algo, "pulled_times")
         av = _attr(algo, "average_rewards")
+        self._rebind(act, pt)
+        # the arm object may have been re-created while it was handed down: find the entry that owns its history
+        arm = next((v[0] for v in self.led.values() if v[1] is rew_list), arm)
+        if arm not in act:
+            raise Violation("C11.active", "the pulled arm at %r is no longer active after its reward (round %d)" % (arm.get_point(), t))
         m, n = self.stats(arm)
-        if pt[arm] != n or not close(av[arm], m):
+        rew = self.led[id(arm)][1]
+        if pt[arm] != n or not close(av[arm], m, 1e-9, max(abs(v) for v in rew)):
             raise Violation("C11.history", "arm at %r records (mean %r, pulls %r), its own history gives (%r, %d) (round %d)"
                             % (arm.get_point(), av[arm], pt[arm], m, n, t))
         cell = self.cell_before
-        calls = [c for c in ctx.round_calls() if c["partition"] is algo.partition]
+        calls = [c for c in ctx.round_calls() if c["partition"] is algo.partition][self.consumed_calls:]
         thr = self.nu * self.rho ** cell.get_depth()
-        verdicts = set()
         # the radius is the state quantity an observer sees after receive_reward: phase counter and pull
         # count as they stand once round t is booked (the same radius the next pull's index uses)
-        for ph in {phase_of(t + 1)}:
-            rad = math.sqrt(8 * ph / (2 + n))
-            if close(rad, thr):
-                verdicts |= {True, False}
-            else:
-                verdicts.add(rad <= thr)
-        if len(calls) > 1:
-            raise Violation("C11.refine", "%d cells refined in one round (round %d)" % (len(calls), t))
-        refined = len(calls) == 1
-        if refined and calls[0]["parent"] is not cell:
-            raise Violation("C11.refine", "round %d refined cell %r, the pulled arm's cell is %r" % (t, cell_id(calls[0]["parent"]), cell_id(cell)))
-        if len(verdicts) > 1:
+        rad = math.sqrt(8 * phase_of(t + 1) / (2 + n))
+        ambiguous = close(rad, thr)
+        due = rad <= thr
+        if calls:
+            self._judge_refinement(ctx, arm, cell, calls, t, "")
+        elif due and not ambiguous:
+            # not refined inside receive_reward: admissible only if it is carried out at the very next pull
+            self.pending = (arm, cell, t)
+        if ambiguous:
             st.ambiguous += 1
-        else:
-            want = next(iter(verdicts))
-            if want != refined:
-                raise Violation("C11.rule", "round %d: radius sqrt(8*phase/(2+%d)) vs nu*rho^%d = %r: refinement %s but %s"
-                                % (t, n, cell.get_depth(), thr, "due" if want else "not due", "done" if refined else "not done"), round=t)
-        if refined:
-            st.bump("refinements")
-            children = calls[0]["children"]
-            new_cell = act.get(arm)
-            if not any(new_cell is c for c in children):
-                raise Violation("C11.handdown", "after refining %r the arm's cell is %r, not one of the children (round %d)"
-                                % (cell_id(cell), cell_id(new_cell) if new_cell is not None else None, t))
-            on_face = sum(1 for c in children if in_box(arm.get_point(), c.get_domain())) > 1
-            if on_face:
-                st.bump("refinements_arm_on_shared_face")
-            for c in children:
-                if c is new_cell:
-                    continue
-                fresh = [a for a, cc in act.items() if cc is c and id(a) not in self.arms_before]
-                ok = [a for a in fresh if list(map(float, a.get_point())) == list(map(float, c.get_cpoint())) and pt[a] == 0]
-                if not ok:
-                    raise Violation("C11.newarm", "after refining %r the child %r %r did not receive a new arm at its centre (round %d)"
-                                    % (cell_id(cell), cell_id(c), c.get_domain(), t), round=t)
         self.coverage(ctx, "(round %d)" % t)
         st.bump("rounds_judged")
+
+    def end(self, ctx):
+        # a refinement still pending when the run ends cannot be judged (the run stops before the next pull)
+        self.pending = None
